@@ -54,10 +54,12 @@ func freshPSKExt(tg Target, scfg *tls.Config) (tls.PreSharedKeyExtension, []byte
 
 // C20 — Injected sessions are used exactly as given, under any legal call order.
 func TestC20(t *testing.T) {
-	r := mon.New("C20", "all call sequences of length <=4 over {SetSessionCache, BuildHandshakeStateWithoutSession, SetSessionTicketExtension, SetPskExtension, BuildHandshakeState} followed by Handshake, plus setters after Handshake (enumerated completely for the bound) x targets {ticket parrot vs TLS 1.2 server, PSK parrot vs TLS 1.3 server, parrot without the extension, HelloGolang} x {cache in Config, no cache}; sessions taken from a previous connection and forged from a known master secret. Model written from the doc comments classifies each history as allowed / forbidden / unspecified. Oracle: never a runtime.Error panic or internal assertion; forbidden => returned error or explanatory 'tls: ... failed: ...' panic; allowed => no panic, the injected ticket / identity is on the wire and both sides resume. distinct = (target, history, cache)")
+	r := mon.New("C20", "all call sequences of length <=4 over {SetSessionCache, BuildHandshakeStateWithoutSession, SetSessionTicketExtension, SetPskExtension, BuildHandshakeState, SetClientRandom (an edit of the built hello)} followed by Handshake, plus setters after Handshake (enumerated completely for the bound) x targets {ticket parrot vs TLS 1.2 server, PSK parrot vs TLS 1.3 server, parrot without the extension, HelloGolang} x {cache in Config, no cache}; sessions taken from a previous connection and forged from a known master secret. Model written from the doc comments classifies each history as allowed / forbidden / unspecified. Oracle: never a runtime.Error panic or internal assertion; forbidden => returned error or explanatory 'tls: ... failed: ...' panic; allowed => no panic, the injected ticket / identity is on the wire and both sides resume. distinct = (target, history, cache)")
 	defer r.Finish(t)
 	r.Exhaustive(true)
-	ops := []string{"C", "W", "T", "P", "B"}
+	// E = a documented edit of the built hello (SetClientRandom); only applied once the hello
+	// exists, a no-op in the model
+	ops := []string{"C", "W", "T", "P", "B", "E"}
 	var seqs [][]string
 	var gen func(prefix []string, n int)
 	gen = func(prefix []string, n int) {
@@ -238,6 +240,10 @@ func TestC20(t *testing.T) {
 					err = u.SetSessionTicketExtension(&tls.SessionTicketExtension{Session: e.state, Ticket: e.ticket, Initialized: true})
 				case "P":
 					err = u.SetPskExtension(pskExt)
+				case "E":
+					if u.HandshakeState.Hello != nil && len(u.HandshakeState.Hello.Raw) > 0 {
+						err = u.SetClientRandom(bytes.Repeat([]byte{0xa7}, 32))
+					}
 				case "H":
 					if !handshook {
 						handshook = true
